@@ -378,7 +378,6 @@ func (index *PatternIndex) searchPairs(ctx *Context, pairs []piPair) (StringSet,
 	rest := pairs[1:]
 
 	k := pair.key
-	v := pair.val
 
 	if strings.HasPrefix(k, "?") {
 		if AllowPropertyVariables {
@@ -396,19 +395,39 @@ func (index *PatternIndex) searchPairs(ctx *Context, pairs []piPair) (StringSet,
 		// Key not here.  Try next pair.
 		return index.searchPairs(ctx, rest)
 	}
-	ki, have := si[k]
-	if !have {
-		if !AllowPropertyVariables {
-			// Key not here.  Try next pair.
-			return index.searchPairs(ctx, rest)
-		}
-		// Check for anonymous variable.
-		if ki, have = si["?"]; !have {
-			// Key not here.  Try next pair.
-			return index.searchPairs(ctx, rest)
+	kis := make([]*PatternIndex, 0, 2)
+	if ki, have := si[k]; have {
+		kis = append(kis, ki)
+	}
+	if AllowPropertyVariables {
+		// Check for anonymous variable, too: a pattern with a
+		// variable for this key is as much a candidate as a
+		// pattern with the key itself.
+		if ki, have := si["?"]; have && k != "?" {
+			kis = append(kis, ki)
 		}
 	}
+	if len(kis) == 0 {
+		// Key not here.  Try next pair.
+		return index.searchPairs(ctx, rest)
+	}
 	// We took a step down.
+
+	ids := make(StringSet)
+	for _, ki := range kis {
+		more, err := index.searchValue(ctx, ki, pair, rest)
+		if err != nil {
+			return nil, err
+		}
+		ids.AddAll(more)
+	}
+	return ids, nil
+}
+
+// searchValue continues searchPairs below the node ki for the pair's key.
+func (index *PatternIndex) searchValue(ctx *Context, ki *PatternIndex, pair piPair, rest []piPair) (StringSet, error) {
+	k := pair.key
+	v := pair.val
 
 	// Let's see if we can find some Ids considering the value.
 	ids := make(StringSet)
